@@ -4,7 +4,8 @@ Used to compare hand-written sibling copies of one operation (C11, C12, C13, C15
 from lib import hir as H
 
 STRIP_METHODS = {"clone", "to_string", "to_owned", "copied", "cloned", "borrow", "borrow_mut", "as_ref", "as_str", "deref", "into", "to_vec", "iter", "into_iter"}
-PLUMBING_TYPES = ("blots_core::heap::Heap", "core::cell::Ref<", "core::cell::RefMut<", "alloc::rc::Rc<core::cell::RefCell<blots_core::heap::Heap", "blots_core::ast::Span", "alloc::rc::Rc<str>")
+PLUMBING_TYPES = ("blots_core::heap::Heap", "core::cell::Ref<", "core::cell::RefMut<", "alloc::rc::Rc<core::cell::RefCell<blots_core::heap::Heap", "alloc::rc::Rc<str>")
+PLUMBING_EXACT = ("blots_core::ast::Span",)
 COMMUTATIVE_BIN = {"Mul", "BitAnd", "BitOr"}
 SYMMETRIC_CALLS = {"equals"}
 
@@ -28,13 +29,23 @@ class Env:
 
 def is_plumbing(n):
     t = (n.get("ty") or "").lstrip("&").replace("mut ", "")
-    return t.startswith(PLUMBING_TYPES)
+    return t.startswith(PLUMBING_TYPES) or t in PLUMBING_EXACT
 
 
 def norm(n, env, depth=0):
     if depth > 60 or not isinstance(n, dict):
         return ("?", "depth")
     k = H.kind(n)
+    sp = n.get("sp")
+    if sp and sp[5] and sp[6] == "vec" and k in ("Call", "MethodCall"):
+        arr = None
+        for x in H.walk(n):
+            if H.kind(x) == "Array":
+                arr = x
+                break
+        if arr is not None:
+            return ("vec",) + tuple(norm(x, env, depth + 1) for x in arr["es"])
+        return ("vec",)
     if k == "Try":
         inner = norm(n["e"], env, depth + 1)
         if inner and inner[0] in ("list", "zip"):
@@ -52,7 +63,9 @@ def norm(n, env, depth=0):
         e2 = env.child()
         for s in n["stmts"]:
             if s["k"] == "Let" and H.kind(s["pat"]) == "Bind" and s.get("init") is not None:
-                e2.inline[s["pat"]["name"]] = (s["init"], e2.child())
+                ce = e2.child()
+                e2.roles.pop(s["pat"]["name"], None)
+                e2.inline[s["pat"]["name"]] = (s["init"], ce)
             elif s["k"] == "Let" and H.kind(s["pat"]) == "Tuple" and s.get("init") is not None:
                 bind_tuple(s["pat"], s["init"], e2)
         if n.get("expr") is not None:
